@@ -142,6 +142,7 @@ void seg_event(int kind, uint64_t a, uint64_t b, uint64_t c, uint64_t d) {
 uint64_t tool_blocks[8], tool_total_blocks;
 void sink(int kind, uint64_t a, uint64_t b, uint64_t c, uint64_t d) {
     n_events++;
+    if (kind == 50) { char b[160]; snprintf(b, sizeof b, "the encoder's fatal-error handler was called with internal error 0x%llx (error packet posted, the reporting thread then spins for ever)", (unsigned long long)a); world_fatal("TRAP_LIB_ERROR", b); }
     if (kind == 40) { tool_total_blocks++; for (int i = 0; i < 8; i++) if ((a >> i) & 1) tool_blocks[i]++; return; }
     if (kind >= 1 && kind <= 10) { if (srm_enabled) srm_event(kind, a, b, c, d); }
     else if (kind >= 20 && kind <= 24) { if (seg_enabled) seg_event(kind, a, b, c, d); }
